@@ -34,13 +34,18 @@ type spec[T any] struct {
 	// outside the domain that do not round trip are reported under clause
 	// "time-range" with this key (a finding of its own, never mixed with "roundtrip")
 	rtNote string
+	// witnesses are minimal values that once violated the property; they are run
+	// first on every run, independently of the PRNG (`val <type> <index> 2`)
+	witnesses []T
 }
 
 // entry is the type-erased view used by the runner.
 type entry struct {
 	name string
 	dec  bool
+	nWit int
 	one  func(c *ctx, sub uint64, bad bool, class string)
+	wit  func(c *ctx, index int)
 	// unmarshal feeds bytes to the type's unmarshaller under recover
 	unmarshal func(b []byte) (panicked string, err error)
 	// seeds returns printed encodings of a generated value (mutation seeds)
@@ -159,7 +164,7 @@ func collectText(v reflect.Value, out *[]string, depth int) {
 }
 
 func register[T any](s spec[T]) {
-	e := entry{name: s.name, dec: s.dec}
+	e := entry{name: s.name, dec: s.dec, nWit: len(s.witnesses)}
 	paths := func(v *T) []pathRes {
 		var ps []pathRes
 		if s.marshalVal {
@@ -224,12 +229,30 @@ func register[T any](s spec[T]) {
 		}
 		return out
 	}
-	e.one = func(c *ctx, sub uint64, bad bool, class string) {
+	var eval func(c *ctx, sub uint64, bad bool, class string, fixed *T)
+	e.one = func(c *ctx, sub uint64, bad bool, class string) { eval(c, sub, bad, class, nil) }
+	e.wit = func(c *ctx, index int) {
+		if index >= 0 && index < len(s.witnesses) {
+			w := s.witnesses[index]
+			eval(c, uint64(index), false, "corpus", &w)
+		}
+	}
+	eval = func(c *ctx, sub uint64, bad bool, class string, fixed *T) {
 		r := c.r
 		g := &gen{r: common.NewRand(sub), bad: bad}
 		var v T
-		gp := guard("gen", func() ([]byte, []xml.Token, error) { v = s.gen(g); return nil, nil, nil })
+		gp := guard("gen", func() ([]byte, []xml.Token, error) {
+			if fixed != nil {
+				v = *fixed
+			} else {
+				v = s.gen(g)
+			}
+			return nil, nil, nil
+		})
 		line := fmt.Sprintf("val %s %d %s", s.name, sub, common.B(bad))
+		if fixed != nil {
+			line = fmt.Sprintf("val %s %d 2", s.name, sub)
+		}
 		lines := []string{r.Prop + " " + line}
 		r.Line(line, "-")
 		if gp.panicked != "" {
